@@ -136,6 +136,24 @@ def exhaustive_tokens(acc, first, length, variants, vocab="VOCAB"):
             record(acc, d, text, load(d, text), "tok")
 
 
+CONTEXTS = ["a = {t}", "a = ({t}, 1)", "a = (1, {t})", "a = {{{t}}}", "a = {t} <m>",
+            "{t} = 1", "GROUP = {t} x = 1 END_GROUP", "a = 1 {t} b = 2",
+            "GROUP = g x = 1 END_GROUP = {t}", "a = <{t}>", "a = 1 END {t}",
+            "OBJECT = o a = {t} END_OBJECT"]
+
+
+def tokens_in_context(acc):
+    """Every curated borderline token text (numerals, dates, keywords in all their
+    near-miss spellings - the list of C17) in every syntactic context x 6 variants."""
+    from props import c17
+    toks = sorted({t for t in c17.CURATED if t and "\n" not in t})
+    for t in toks:
+        for ctx in CONTEXTS:
+            text = ctx.replace("{t}", t)
+            for d in PARSERS:
+                record(acc, d, text, load(d, text), "ctx")
+
+
 def corpus():
     files = sorted(glob.glob(os.path.join(REPO, "tests", "data", "**", "*"),
                              recursive=True))
@@ -154,6 +172,8 @@ def random_texts(acc, n, seed):
     soup_tok = st.sampled_from(VOCAB + ["b", "2.5", "'t'", "<", ">", "#x\n", "-",
                                         "2#1#", "12:00", "NULL", "BEGIN_GROUP",
                                         "2001-12+3", "12:00:60+07", "2001-366",
+                                        "-16#1F#", "+2#0101#", "16#-1f#", "-2#+1#", "8#8#",
+                                        "2001-01-01T12:00:00.123-08:00", "1e400",
                                         "2010-12-31T23:59:60", "+.5", "1e+", "16#",
                                         "=", "=", "(", ")"])
     sep = st.sampled_from([" ", " ", "", "\n", "\t", " \n "])
@@ -292,6 +312,7 @@ def shards(tier, seed):
             out.append(("exhaustive_tokens",
                         dict(first=["a", "=", b], length=length,
                              variants=list(PARSERS), vocab="BRACKETS")))
+    out.append(("tokens_in_context", {}))
     n = 400 if tier == "quick" else 12000
     for j in range(16):
         out.append(("random_texts", dict(n=n, seed=seed * 1000 + j)))
